@@ -228,6 +228,7 @@ pub struct KWriteA;
 pub struct KReadC;
 pub struct KWriteC;
 pub struct KReadAWriteC;
+pub struct KOptReadA;
 impl CtrlKind for KUnit {
     type Data<'c> = ();
 }
@@ -245,6 +246,9 @@ impl CtrlKind for KWriteC {
 }
 impl CtrlKind for KReadAWriteC {
     type Data<'c> = (Read<'c, Cell0>, Write<'c, Cell1>);
+}
+impl CtrlKind for KOptReadA {
+    type Data<'c> = Option<Read<'c, Cell0>>;
 }
 pub struct RCtrl<K: CtrlKind> {
     id: usize,
@@ -344,6 +348,7 @@ pub fn register_into(b: &mut Builder, ops: &[Op], next_id: &mut usize, ctx: &Arc
                     CtrlData::ReadC => add_batch_k::<KReadC>(b, bs, id, inner, ctx),
                     CtrlData::WriteC => add_batch_k::<KWriteC>(b, bs, id, inner, ctx),
                     CtrlData::ReadAWriteC => add_batch_k::<KReadAWriteC>(b, bs, id, inner, ctx),
+                    CtrlData::OptReadA => add_batch_k::<KOptReadA>(b, bs, id, inner, ctx),
                 }
             }
         }
